@@ -35,8 +35,12 @@ type c02Desc struct {
 	Ops       []c02Op     `json:"ops"`
 	CloseCode int         `json:"close_code"`
 	CloseRsn  int         `json:"close_reason_len"`
-	Seed      uint64      `json:"seed"`
-	WriteMax  int         `json:"transport_write_max"`
+	// CloseRune is the character the reason is made of ("" = 'r'); CloseRsn counts characters
+	CloseRune string `json:"close_reason_char,omitempty"`
+	// Kind "failed-writer-close": a streamed message whose Close gives up behind a stalled control frame
+	Kind     string `json:"kind,omitempty"`
+	Seed     uint64 `json:"seed"`
+	WriteMax int    `json:"transport_write_max"`
 }
 
 func init() {
@@ -49,7 +53,7 @@ func init() {
 		ChildSetup:  c02Setup,
 		CaseTimeout: 120 * time.Second,
 		Require: func(tier string) map[string]int64 {
-			return map[string]int64{"frames_parsed": 5000, "messages_reconstructed": 2000, "compressed_messages_inflated": 300, "close_frames_checked": 100, "masked_frames": 1000}
+			return map[string]int64{"frames_parsed": 5000, "messages_reconstructed": 2000, "compressed_messages_inflated": 300, "close_frames_checked": 100, "masked_frames": 1000, "writer_closes_that_gave_up_with_the_connection_alive": 8, "close_calls_with_unsendable_multibyte_reason": 50}
 		},
 		Assumptions: []string{
 			"the harness's wire package (parser, masking, inflater built on compress/flate) is the reference decoder; thorough tier adds Python zlib as an unrelated inflater",
@@ -131,11 +135,104 @@ func c02Gen(tier string, seed int64) []fw.Case {
 		if d.CloseCode == 1005 {
 			d.CloseRsn = 0
 		}
+		if d.CloseCode != 1005 && rng.Intn(4) == 0 {
+			// reasons made of multi-byte characters: 123 BYTES is the limit (a control frame carries at most 125)
+			d.CloseRune = []string{"\u00e9", "\u4e16", "\U0001F600"}[rng.Intn(3)]
+			w := len(d.CloseRune)
+			d.CloseRsn = []int{1, 123 / w, 123/w + 1, 100, 123}[rng.Intn(5)]
+		}
 		d.WriteMax = []int{0, 0, 1, 7, 1000}[rng.Intn(5)]
 		dd := d
 		cases = append(cases, fw.Case{Name: fmt.Sprintf("%s/%s/thr=%d/ops=%d", d.Role, paramsKey(d.Params), d.Threshold, len(d.Ops)), Desc: dd, Run: func(r *fw.R) { c02Run(r, dd, tier) }})
 	}
+	for i := 0; i < tierPick(tier, 16, 160); i++ {
+		d := c02Desc{Kind: "failed-writer-close", Seed: rng.U64(), Role: bothRoles[i%2], Params: allParams[(i/2)%len(allParams)]}
+		d.Ops = []c02Op{{Kind: "writer", Size: []int{1, 100, 5000, 70000}[rng.Intn(4)], Text: rng.Bool()}}
+		dd := d
+		cases = append(cases, fw.Case{Name: fmt.Sprintf("%s/%s/failed-writer-close", d.Role, paramsKey(d.Params)), Desc: dd, Run: func(r *fw.R) { c02FailedClose(r, dd) }})
+	}
 	return cases
+}
+
+// c02FailedClose: the Close of a streamed message gives up (its context ends) while a control frame of another
+// goroutine is stuck in the transport; the connection survives. Whatever is written next, the emitted stream
+// must stay conformant: no new data message may start inside the message that never got its final frame.
+func c02FailedClose(r *fw.R, d c02Desc) {
+	r.SetSample(d)
+	rng := fw.NewRand(d.Seed)
+	c, libEnd, peerEnd, err := libConn(d.Role, d.Params, 0, xport.Plan{Seed: d.Seed}, xport.Plan{})
+	if err != nil {
+		r.Violate("C02/attach-failed", err.Error(), "")
+		return
+	}
+	defer c.CloseNow()
+	defer peerEnd.Close()
+	peer := newRawPeer(peerEnd, d.Role, d.Params, d.Seed)
+	peer.AutoPong = true
+	peer.Start()
+	base, cancel := context.WithTimeout(context.Background(), 30*time.Second)
+	defer cancel()
+	go func() {
+		for {
+			if _, _, err := c.Read(base); err != nil {
+				return
+			}
+		}
+	}()
+	actx, ac := context.WithCancel(base)
+	defer ac()
+	w, err := c.Writer(actx, msgType(d.Ops[0].Text))
+	if err == nil {
+		_, err = w.Write(genPayload(rng, d.Ops[0].Size, 3, nil))
+	}
+	if err != nil {
+		r.Violate("C02/write-failed", "streamed write to a reading peer failed: "+err.Error(), "")
+		return
+	}
+	libEnd.StallWrites(true)
+	pingDone := make(chan error, 1)
+	go func() { pingDone <- c.Ping(base) }()
+	for i := 0; i < 3000 && libEnd.Stalled() == 0; i++ {
+		time.Sleep(time.Millisecond)
+	}
+	if libEnd.Stalled() == 0 {
+		r.Inconclusivef("the Ping frame never reached the transport")
+		return
+	}
+	go func() { time.Sleep(20 * time.Millisecond); ac() }()
+	cerr := w.Close()
+	libEnd.StallWrites(false)
+	perr := <-pingDone
+	if cerr == nil {
+		r.Inconclusivef("the writer's Close did not give up behind the stalled Ping")
+		return
+	}
+	r.Count("writer_closes_that_gave_up_with_the_connection_alive", 1)
+	// what the application does next
+	var nerr error
+	for i := 0; i < 2; i++ {
+		nctx, nc := context.WithTimeout(base, 150*time.Millisecond)
+		if i == 0 {
+			nerr = c.Write(nctx, websocket.MessageText, []byte("the next message"))
+		} else if nw, err := c.Writer(nctx, websocket.MessageBinary); err == nil {
+			nw.Write([]byte("another"))
+			nw.Close()
+		}
+		nc()
+	}
+	c.CloseNow()
+	if !peer.WaitEnd(20 * time.Second) {
+		r.Inconclusivef("transport not closed 20 s after CloseNow")
+		return
+	}
+	peer.Locked(func() {
+		conf := peer.Conf
+		for _, v := range conf.Violations {
+			r.Violate("C02/nonconformant-stream/"+vioClass(v), fmt.Sprintf("%s %s: after a streamed message's Close failed (%v; ping: %v; next Write: %v): %s", d.Role, paramsKey(d.Params), cerr, perr, nerr, v), "frames: "+string(conf.FrameLog))
+		}
+		r.Count("frames_parsed", int64(conf.Frames))
+		r.Key("%s/%s/failed-writer-close/size=%s/next-write-ok=%v", d.Role, paramsKey(d.Params), sizeClass(d.Ops[0].Size), nerr == nil)
+	})
 }
 
 func thrClass(params wire.Params, t int) string {
@@ -314,9 +411,19 @@ func c02Run(r *fw.R, d c02Desc, tier string) {
 			sent = append(sent, sentMsg{typ: opOf(msgType(op.Text)), data: payload, op: op})
 		}
 	}
-	reason := strings.Repeat("r", d.CloseRsn)
+	ru := "r"
+	if d.CloseRune != "" {
+		ru = d.CloseRune
+	}
+	reason := strings.Repeat(ru, d.CloseRsn)
 	cerr := c.Close(websocket.StatusCode(d.CloseCode), reason)
-	if cerr != nil {
+	sendable := len(reason) <= 123
+	if !sendable {
+		// the reason cannot be sent as given: whatever Close frame goes out instead must be a legal one
+		// (the monitor rejects a control frame above 125 payload bytes)
+		r.Count("close_calls_with_unsendable_multibyte_reason", 1)
+		r.Key("%s/close/unsendable-reason/char-bytes=%d/chars=%d", d.Role, len(ru), d.CloseRsn)
+	} else if cerr != nil {
 		r.Violate("C02/close-failed", fmt.Sprintf("Close(%d, %d byte reason) against an echoing peer returned %v", d.CloseCode, d.CloseRsn, cerr), "")
 	}
 	if !peer.WaitEnd(20 * time.Second) {
@@ -367,18 +474,20 @@ func c02Run(r *fw.R, d c02Desc, tier string) {
 		r.Violate("C02/ping-count", fmt.Sprintf("%d Ping calls returned nil, %d Ping frames on the wire", pings, len(conf.Pings)), "")
 	}
 	// close frame
-	if !conf.CloseSeen {
+	if !conf.CloseSeen && !sendable {
+		// Close refused the reason and closed the connection without a Close frame (what it sends instead is C06's subject)
+	} else if !conf.CloseSeen {
 		r.Violate("C02/no-close-frame", "Close returned but no Close frame was emitted", "frames: "+string(conf.FrameLog))
 	} else {
 		r.Count("close_frames_checked", 1)
 		wantCode := d.CloseCode
-		if conf.CloseCode != wantCode || conf.CloseRsn != reason {
+		if sendable && (conf.CloseCode != wantCode || conf.CloseRsn != reason) {
 			r.Violate("C02/close-payload", fmt.Sprintf("Close(%d, %d byte reason) emitted code %d with %d reason bytes", d.CloseCode, d.CloseRsn, conf.CloseCode, len(conf.CloseRsn)), hexdump(conf.ClosePay, 130))
 		}
 		if d.CloseCode == 1005 && len(conf.ClosePay) != 0 {
 			r.Violate("C02/close-1005-payload", "Close(1005) must emit an empty Close payload", hexdump(conf.ClosePay, 130))
 		}
-		r.Key("%s/close/code-class=%s/reason=%d", d.Role, codeClass(d.CloseCode), d.CloseRsn)
+		r.Key("%s/close/code-class=%s/reason=%d/char-bytes=%d", d.Role, codeClass(d.CloseCode), d.CloseRsn, len(ru))
 	}
 	if ok, distinct, total := conf.KeyDiversity(); !ok {
 		r.Violate("C02/mask-keys-repeat", fmt.Sprintf("only %d distinct masking keys over %d masked frames", distinct, total), "")
